@@ -154,7 +154,13 @@ func genCut(c *hx.Ctx) []*scriptScn {
 			bounds = append(bounds, total)
 		}
 		offs := map[int]bool{}
-		if c.Quick() {
+		exhaustive := !c.Quick() || total <= 160
+		if exhaustive {
+			c.Count("muxfault_cut.streams_cut_at_every_byte", 1)
+		} else {
+			c.Count("muxfault_cut.streams_cut_at_frame_boundaries", 1)
+		}
+		if !exhaustive {
 			for _, bd := range bounds {
 				for d := -2; d <= 2; d++ {
 					if bd+d >= 0 && bd+d <= total {
@@ -211,7 +217,7 @@ func genCut(c *hx.Ctx) []*scriptScn {
 
 func genOverflow(c *hx.Ctx) []*scriptScn {
 	var out []*scriptScn
-	maxQ := c.Pick(4, 8)
+	maxQ := 8
 	mk := func(q, side int, note string, plan func(b *builder)) {
 		ids := []uint32{1, 2}
 		open := [2][]uint32{ids, ids}
@@ -589,9 +595,10 @@ func driveFault(c *hx.Ctx) error {
 		}
 		emitScript(c, i, s, res[i], shards[s.Stream])
 	}
+	skippedCheck(c)
 	c.Stats.Exhaustive = false
-	c.Stats.Rule = "muxfault_cut: scripted Writes (0..64 bytes, thorough also a 2.5 KiB stream) on 1-3 ids plus an unopened one, the trunk cut by a byte budget at every frame boundary +-2 and right after every header (quick) or at every byte offset (thorough), in either direction, readers late or already blocked, net.Pipe and unix socketpair; " +
-		"muxfault_overflow: queue lengths 1..4 (thorough 1..8), the receiver stops reading after k frames for every k, plus random read/write schedules until a queue overflows (a dropped sync frame after each Write makes the schedule deterministic); " +
+	c.Stats.Rule = "muxfault_cut: scripted Writes (0..64 bytes, thorough also a 2.5 KiB stream) on 1-3 ids plus an unopened one, the outgoing direction of one end cut by a byte budget at every byte offset (streams up to 160 bytes; thorough: every stream) or at every frame boundary +-2 and right after every header (longer streams in the quick tier), readers late or already blocked, net.Pipe and unix socketpair; " +
+		"muxfault_overflow: queue lengths 1..8, the receiver stops reading after k frames for every k, plus random read/write schedules until a queue overflows (a dropped sync frame after each Write makes the schedule deterministic); " +
 		"muxfault_close: random two-way exchanges, and before every operation of each one of: Mux.Close, conn.Close, transport failure, three concurrent closers, at either end; the rest of the exchange is then attempted; " +
 		"muxfault_closers: 1..16 concurrent closers (Mux.Close and conn.Close mixed) at one or both ends with a blocked Read on every connection; " +
 		"muxfault_blocked: Writes towards a Mux whose reader is not unblocked yet, then close/failure/unblock; muxfault_raw (malformed): frames for unknown and reserved ids and damaged tails from a bare transport end; " +
@@ -616,6 +623,10 @@ func crashKind(text string) string {
 func emitScript(c *hx.Ctx, idx int, s *scriptScn, r scnResult, sh *hx.Shard) {
 	raw := map[string]interface{}{"scenario": s, "index": idx}
 	key := fmt.Sprint(s.Stream, "/", idx)
+	if r.Skip {
+		c.Count("skipped_after_hanging_scenarios", 1)
+		return
+	}
 	if r.Crash != "" {
 		raw["crash"] = r.Crash
 		c.ImplFail(s.Stream, "the implementation panicked, dead-locked or hung: "+crashKind(r.Crash), raw)
@@ -729,6 +740,10 @@ func emitScript(c *hx.Ctx, idx int, s *scriptScn, r scnResult, sh *hx.Shard) {
 func emitListener(c *hx.Ctx, idx int, s *scriptScn, r scnResult, sh *hx.Shard) {
 	raw := map[string]interface{}{"scenario": s, "index": idx}
 	key := fmt.Sprint(s.Stream, "/", s.Note)
+	if r.Skip {
+		c.Count("skipped_after_hanging_scenarios", 1)
+		return
+	}
 	if r.Crash != "" {
 		raw["crash"] = r.Crash
 		c.ImplFail(s.Stream, "the implementation panicked, dead-locked or hung: "+crashKind(r.Crash), raw)
@@ -800,4 +815,11 @@ func emitListener(c *hx.Ctx, idx int, s *scriptScn, r scnResult, sh *hx.Shard) {
 	}
 	c.Eval(key, true)
 	sh.Add(fmt.Sprintf("{| lc_events := %s; lc_conn_closed := %s |}", coqfmt.List(evs), coqfmt.Bool(connClosed)), raw)
+}
+
+// skipped scenarios exist only behind scenarios that hung, and those are reported as failing inputs
+func skippedCheck(c *hx.Ctx) {
+	if c.Stats.Distribution["skipped_after_hanging_scenarios"] > 0 && len(c.Stats.ImplFailures) == 0 {
+		c.HarnessError("scenarios were skipped although no hanging scenario was reported")
+	}
 }
